@@ -48,7 +48,8 @@ def make_twin(path):
 
 
 def _crosshair(path, line, timeout):
-    env = dict(os.environ, PYTHONPATH=VERIF, PYTHONWARNINGS="ignore", PYTHONDONTWRITEBYTECODE="1", PYTHONHASHSEED="0")
+    pp = os.pathsep.join(x for x in (VERIF, os.environ.get("PYTHONPATH", "")) if x)   # keep a caller's PYTHONPATH (seed worktrees)
+    env = dict(os.environ, PYTHONPATH=pp, PYTHONWARNINGS="ignore", PYTHONDONTWRITEBYTECODE="1", PYTHONHASHSEED="0")
     t0 = time.time()
     try:
         p = subprocess.run([CROSSHAIR, "check", "--report_all", "--per_condition_timeout", str(timeout), f"{path}:{line}"],
